@@ -3,8 +3,8 @@
 set -u
 ID="$1"; V="$2"
 VD=$(cd "$(dirname "$0")/.." && pwd)
-SD=/tmp/seed-out/$ID/$V
-OUT=$VD/seeded/$ID$V
+SD=${SEED_ROOT:-/tmp/seed-out}/$ID/$V
+OUT=$VD/seeded/$ID${SEED_SUFFIX:-$V}
 mkdir -p "$OUT"
 cp "$SD/patch.diff" "$OUT/patch.diff"
 demo=$(ls "$SD"/demo*_test.go 2>/dev/null | head -1); [ -n "$demo" ] && cp "$demo" "$OUT/demo_test.go"
@@ -19,6 +19,7 @@ fi
 python3 - "$OUT" "$ID" "$V" <<PY
 import json,sys,re
 out,ID,V=sys.argv[1:4]
+V=__import__('os').environ.get('SEED_SUFFIX',V)
 conf='''$conf'''
 res='''$res'''
 thor='''$thor'''
